@@ -478,9 +478,13 @@ def main(argv=None):
             with warnings.catch_warnings():
                 warnings.simplefilter("ignore")
                 still, text = w()
-        except Exception:
-            harness_errors.append(f"witness {e['id']} crashed:\n{traceback.format_exc()}")
-            continue
+        except Exception as exc:
+            if isinstance(exc, CODE_ERRORS) and _touches_src(exc.__traceback__):
+                # the listed input still fails inside the code under test, only in another form than recorded
+                still, text = True, f"the witness input now raises {type(exc).__name__}: {exc}"
+            else:
+                harness_errors.append(f"witness {e['id']} crashed:\n{traceback.format_exc()}")
+                continue
         if still:
             known_lines.append(f"KNOWN-FINDING: property={prop} {e['id']}: {e['what']} [{text}]")
 
